@@ -137,7 +137,7 @@ def check(u_set: bool, s_set: bool, c_set: bool, cps: $$CPS$$, rel_s: bool, rel_
     pre: MODE == "outdir" or (not rel_s and not rel_u)
     pre: use_s or (not s_set and not rel_s and MODE != "wrongtype")
     pre: all(dict(u_set=u_set, s_set=s_set, c_set=c_set, rel_s=rel_s, rel_u=rel_u, use_s=use_s)[k] == FIXB[k] for k in FIXB)
-    pre: MODE == "wrongtype" or EXCL or (which == 0 and kind == 0)
+    pre: MODE == "wrongtype" or EXCL or (MODE == "str" and kind == 0 and (c_set or which == 0)) or (which == 0 and kind == 0)
     pre: 0 <= which <= 1 and 0 <= kind <= 2
     pre: not EXCL or ((s_set or which == 0) and (u_set or kind == 0) and kind <= 1)
     post: _
@@ -172,6 +172,8 @@ def check(u_set: bool, s_set: bool, c_set: bool, cps: $$CPS$$, rel_s: bool, rel_
         if rel_u:
             Env.user = dict(Env.user)
             Env.user["output"] = dict(Env.user.get("output", {}), relative_to_config=True)
+    if c_set and MODE == "str" and which == 1:
+        cv = ""                            # an explicitly given EMPTY value on the command line (-p "") still outranks the files
     if c_set:
         if MODE == "bool":
             args = args + [CLI]
